@@ -1,6 +1,195 @@
-(* C09 — merging profiles is plain addition.  Headline theorems only. *)
+(* C09 — merging profiles is plain addition, in any order and at any parallelism.
+   Headline theorems only; the lemmas are in Proofs/TreeProofs.v, the model in Model/Tree.v.
+   All theorems range over all trees / families / worker counts / schedules (no size bound).
+   Hypotheses: t_wfb (children strictly sorted by name, which Insert/Merge/Clone establish and keep:
+   C09_insert_wf, C09_merge_wf, C09_clone_wf, C09_build_ok) and, for statements about several trees,
+   equal root names (every tree.New() root is named ""; C09_build_ok).  Values are unbounded N: sums and
+   products below 2^64 are an assumption recorded in bin/props.d/C09.json.
+   "Leaves the source untouched" has no content in a pure model; it is tested on the implementation. *)
 From Pyro Require Import Model.Base Model.Tree Proofs.TreeProofs.
+From Coq Require Import Permutation.
+
+(* ---- (1) merge adds self and total stack by stack; nothing else changes ------------------- *)
+
+Theorem C09_merge_at : forall s d p, t_wfb d = true -> t_wfb s = true ->
+  t_at p (t_merge d s) = oplus (t_at p d) (t_at p s).
+Proof. exact t_merge_at. Qed.
+Print Assumptions C09_merge_at.
+
+Theorem C09_merge_self : forall a b p, t_wfb a = true -> t_wfb b = true ->
+  t_self_at p (t_merge a b) = t_self_at p a + t_self_at p b.
+Proof. exact t_merge_self_at. Qed.
+Print Assumptions C09_merge_self.
+
+Theorem C09_merge_total : forall a b p, t_wfb a = true -> t_wfb b = true ->
+  t_total_at p (t_merge a b) = t_total_at p a + t_total_at p b.
+Proof. exact t_merge_total_at. Qed.
+Print Assumptions C09_merge_total.
+
+Theorem C09_merge_no_new_stack : forall a b p, t_wfb a = true -> t_wfb b = true ->
+  (t_at p (t_merge a b) = None <-> t_at p a = None /\ t_at p b = None).
+Proof. exact t_merge_at_none. Qed.
+Print Assumptions C09_merge_no_new_stack.
+
+Theorem C09_merge_wf : forall s d, t_wfb d = true -> t_wfb s = true -> t_wfb (t_merge d s) = true.
+Proof. exact t_merge_wfb. Qed.
+Print Assumptions C09_merge_wf.
+
+Definition ex_a : tnode := fold_left (fun t kv => t_insert (fst kv) (snd kv) t)
+  [([97;59;98], 3); ([97;59;99], 2); ([111;116;104;101;114], 1)] t_empty.      (* a;b 3  a;c 2  other 1 *)
+Definition ex_b : tnode := fold_left (fun t kv => t_insert (fst kv) (snd kv) t)
+  [([97;59;98], 4); ([122], 7); ([97], 5)] t_empty.                               (* a;b 4  z 7  a 5 *)
+Definition ex_c : tnode := fold_left (fun t kv => t_insert (fst kv) (snd kv) t)
+  [([97;59;98;59;100], 1); ([], 2)] t_empty.                                      (* a;b;d 1  "" 2 *)
+
+Example C09_merge_at_nonvacuous :
+  t_wfb ex_a = true /\ t_wfb ex_b = true /\
+  t_at [[97];[98]] ex_a = Some (3, 3) /\ t_at [[97];[98]] ex_b = Some (4, 4) /\
+  t_at [[97];[98]] (t_merge ex_a ex_b) = Some (7, 7) /\
+  t_at [[97]] (t_merge ex_a ex_b) = Some (5, 14) /\
+  t_at [[122]] ex_a = None /\ t_at [[122]] (t_merge ex_a ex_b) = Some (7, 7).
+Proof. vm_compute. repeat split. Qed.
+
+(* ---- (2) extensionality; commutativity and associativity as structural equalities ---------- *)
+
+Theorem C09_ext : forall a b, t_wfb a = true -> t_wfb b = true -> t_name a = t_name b ->
+  (forall p, t_at p a = t_at p b) -> a = b.
+Proof. exact t_ext. Qed.
+Print Assumptions C09_ext.
+
+Theorem merge_comm : forall a b, t_wfb a = true -> t_wfb b = true -> t_name a = t_name b ->
+  t_merge a b = t_merge b a.
+Proof. exact t_merge_comm. Qed.
+Print Assumptions merge_comm.
+
+Theorem merge_assoc : forall a b c, t_wfb a = true -> t_wfb b = true -> t_wfb c = true ->
+  t_merge (t_merge a b) c = t_merge a (t_merge b c).
+Proof. exact t_merge_assoc. Qed.
+Print Assumptions merge_assoc.
+
+Example merge_comm_nonvacuous :
+  t_wfb ex_a = true /\ t_wfb ex_b = true /\ t_wfb ex_c = true /\ t_name ex_a = t_name ex_b /\
+  ex_a <> ex_b /\ t_size (t_merge ex_a ex_b) = 6%nat /\
+  t_eqb (t_merge ex_a ex_b) (t_merge ex_b ex_a) = true /\
+  t_eqb (t_merge (t_merge ex_a ex_b) ex_c) (t_merge ex_a (t_merge ex_b ex_c)) = true.
+Proof.
+  repeat split; try (vm_compute; reflexivity).
+  intros H. vm_compute in H. discriminate H.
+Qed.
+
+(* merge order: the serial fold of a family does not depend on the order of the family *)
+Theorem C09_order_independent : forall n l l',
+  Forall (fun t => t_wfb t = true /\ t_name t = n) l -> Permutation l l' ->
+  merge_serial l = merge_serial l'.
+Proof. exact merge_serial_perm. Qed.
+Print Assumptions C09_order_independent.
+
+(* ---- (3) the parallel merge returns exactly the serial merge ------------------------------ *)
+(* For every worker count (conc >= 1 is not even needed for the equality), every schedule of the
+   pool model and every family of well-formed trees with one root name. *)
+Theorem C09_parallel : forall conc sched n tries t,
+  Forall (fun t => t_wfb t = true /\ t_name t = n) tries ->
+  pool_run conc sched tries = Some t -> Some t = merge_serial tries.
+Proof. exact pool_parallel. Qed.
+Print Assumptions C09_parallel.
+
+(* ... and the hypothesis "pool_run = Some t" holds for every schedule that makes one choice per merge
+   (MergeTriesConcurrently loops exactly len(tries)-1 times) as soon as there is one worker. *)
+Theorem C09_parallel_total : forall conc sched tries,
+  (1 <= conc)%nat -> tries <> [] -> length sched = (length tries - 1)%nat ->
+  exists t, pool_run conc sched tries = Some t.
+Proof. exact pool_run_total. Qed.
+Print Assumptions C09_parallel_total.
+
+Example C09_parallel_nonvacuous :
+  Forall (fun t => t_wfb t = true /\ t_name t = []) [ex_a; ex_b; ex_c; ex_a] /\
+  pool_run 2 [1%nat; 0%nat; 5%nat] [ex_a; ex_b; ex_c; ex_a] = merge_serial [ex_a; ex_b; ex_c; ex_a] /\
+  (exists t, pool_run 2 [1%nat; 0%nat; 5%nat] [ex_a; ex_b; ex_c; ex_a] = Some t /\ t_total t = 31) /\
+  (* the schedule matters for the bracketing: two different schedules pair different trees *)
+  ps_pool (pool_round 2 1 {| ps_pool := [ex_a; ex_b; ex_c; ex_a]; ps_fly := [] |}) <>
+  ps_pool (pool_round 2 0 {| ps_pool := [ex_a; ex_b; ex_c; ex_a]; ps_fly := [] |}).
+Proof.
+  split; [repeat constructor|]. split; [vm_compute; reflexivity|]. split.
+  - eexists. split; vm_compute; reflexivity.
+  - vm_compute. discriminate.
+Qed.
+
+(* ---- (4) consistency ---------------------------------------------------------------------- *)
 
 Theorem C09_insert_total : forall p v t, t_total (t_insert_path p v t) = t_total t + v.
 Proof. exact t_insert_path_total. Qed.
 Print Assumptions C09_insert_total.
+
+Theorem C09_insert_exact : forall key v t, t_exactb t = true -> t_exactb (t_insert key v t) = true.
+Proof. exact t_insert_exact. Qed.
+Print Assumptions C09_insert_exact.
+
+Theorem C09_insert_wf : forall key v t, t_wfb t = true -> t_wfb (t_insert key v t) = true.
+Proof. exact t_insert_wfb. Qed.
+Print Assumptions C09_insert_wf.
+
+Theorem C09_merge_exact : forall d s, t_exactb d = true -> t_exactb s = true -> t_exactb (t_merge d s) = true.
+Proof. exact t_merge_exact. Qed.
+Print Assumptions C09_merge_exact.
+
+(* every tree built by Insert calls on tree.New() is well formed, exact and has the root name "" *)
+Theorem C09_build_ok : forall ss : list (bytes * N),
+  let t := fold_left (fun t kv => t_insert (fst kv) (snd kv) t) ss t_empty in
+  t_wfb t = true /\ t_exactb t = true /\ t_name t = [].
+Proof. exact t_build_ok. Qed.
+Print Assumptions C09_build_ok.
+
+Theorem C09_exact_sub : forall t, t_exactb t = true -> t_subb t = true.
+Proof. exact t_exact_sub. Qed.
+Print Assumptions C09_exact_sub.
+
+(* scaling keeps total >= self + children (d > 0); inserting into / merging scaled trees keeps it *)
+Theorem C09_clone_sub : forall m d, d <> 0 -> forall t, t_subb t = true -> t_subb (t_clone m d t) = true.
+Proof. exact t_clone_sub. Qed.
+Print Assumptions C09_clone_sub.
+
+Theorem C09_insert_sub : forall key v t, t_subb t = true -> t_subb (t_insert key v t) = true.
+Proof. exact t_insert_sub. Qed.
+Print Assumptions C09_insert_sub.
+
+Theorem C09_merge_sub : forall d s, t_subb d = true -> t_subb s = true -> t_subb (t_merge d s) = true.
+Proof. exact t_merge_sub. Qed.
+Print Assumptions C09_merge_sub.
+
+Theorem C09_floor_add : forall a b d, d <> 0 -> a / d + b / d <= (a + b) / d.
+Proof. exact floor_add. Qed.
+Print Assumptions C09_floor_add.
+
+Example C09_consistent_nonvacuous :
+  t_exactb ex_a = true /\ t_exactb (t_merge ex_a ex_b) = true /\
+  t_subb (t_clone 1 2 (t_merge ex_a ex_b)) = true /\
+  (* equality is really lost by scaling: a (5,14) with children b 7, c 2 becomes (2,7) with 3, 1 *)
+  t_exactb (t_clone 1 2 (t_merge ex_a ex_b)) = false /\
+  t_at [[97]] (t_clone 1 2 (t_merge ex_a ex_b)) = Some (2, 7).
+Proof. vm_compute. repeat split. Qed.
+
+(* ---- (5) clone floors each value independently and keeps names and shape -------------------- *)
+
+Theorem clone_floor : forall m d t,
+  t_clone m d t = TNode (t_name t) (t_self t * m / d) (t_total t * m / d) (map (t_clone m d) (t_ch t)).
+Proof. exact t_clone_eq. Qed.
+Print Assumptions clone_floor.
+
+Theorem C09_clone_at : forall m d p t,
+  t_at p (t_clone m d t) = option_map (fun x => (fst x * m / d, snd x * m / d)) (t_at p t).
+Proof. exact t_clone_at. Qed.
+Print Assumptions C09_clone_at.
+
+Theorem C09_clone_wf : forall m d t, t_wfb (t_clone m d t) = t_wfb t.
+Proof. exact t_clone_wfb. Qed.
+Print Assumptions C09_clone_wf.
+
+Theorem C09_clone_size : forall m d t, t_size (t_clone m d t) = t_size t.
+Proof. exact t_clone_size. Qed.
+Print Assumptions C09_clone_size.
+
+Example clone_floor_nonvacuous :
+  t_at [[97];[98]] (t_clone 2 3 ex_b) = Some (2, 2) /\ t_at [[97]] (t_clone 2 3 ex_b) = Some (3, 6) /\
+  t_at [] (t_clone 2 3 ex_b) = Some (0, 10) /\ t_at [] ex_b = Some (0, 16) /\
+  t_size (t_clone 2 3 ex_b) = 4%nat.
+Proof. vm_compute. repeat split. Qed.
